@@ -39,15 +39,16 @@ theorem arraysMatch_refl (l : List Scalar) : arraysMatch l l = true := by
   · exact zip_self_all _ l (fun x _ => scalarEq_refl x)
   · split
     · rename_i _ hnum
-      apply zip_self_all (fun a b => match numOf a, numOf b with
-        | some a, some b => isClose a b
-        | _, _ => false)
+      apply zip_self_all closeS
       intro x hx
-      have : (numOf x).isSome = true := by
-        have := List.all_eq_true.mp hnum x (List.mem_append_left _ hx)
-        exact this
-      obtain ⟨v, hv⟩ := Option.isSome_iff_exists.mp this
-      simp [hv, isClose_refl]
+      have hx' : isNum x = true := List.all_eq_true.mp hnum x (List.mem_append_left _ hx)
+      unfold closeS
+      cases hv : numOf x with
+      | some v => simp [isClose_refl]
+      | none =>
+        unfold isNum at hx'
+        simp [hv] at hx'
+        simp [hx']
     · exact zip_self_all _ l (fun x _ => scalarEq_refl x)
 
 /-- the entry written for `v` matches the query `v` itself -/
@@ -125,18 +126,13 @@ theorem break_false (obj : Obj) (k : String) (v : Val) (r : Bool)
     | some st =>
       cases st with
       | scalar o => simp [hl] at h
-      | array o =>
-        cases x with
-        | str s => simp [hl] at h; split at h <;> simp at h
-        | int n => simp [hl] at h; exact h
-        | num n d => simp [hl] at h; exact h
-        | bool b => simp [hl] at h; exact h
+      | array o => simp [hl] at h; exact h
   | list l =>
     cases hl : obj.lookup k with
     | none => simp [hl] at h; exact h
     | some st =>
       cases st with
-      | scalar o => simp [hl] at h
+      | scalar o => simp [hl] at h; exact h
       | array o => simp [hl] at h; split at h <;> simp at h
 
 /-- one failing entry makes the whole comparison fail (whether or not the loop breaks there) -/
@@ -211,16 +207,38 @@ theorem array_sensitive_partial (obj : Obj) (q : Dict) (k : String) (old new : L
   split
   · exact zip_all_false _ old new i x y hx hy hdiff
   · split
-    · apply zip_all_false (fun a b => match numOf a, numOf b with
-        | some a, some b => isClose a b
-        | _, _ => false) old new i x y hx hy
+    · apply zip_all_false closeS old new i x y hx hy
+      unfold closeS
       cases ha : numOf x with
-      | none => simp
+      | none =>
+        -- x is not a number: the elements are equal only when both are NaN, which `hdiff` excludes
+        by_cases hxn : x = .nan
+        · by_cases hyn : y = .nan
+          · subst hxn; subst hyn; simp [scalarEq, numOf] at hdiff
+          · simp [hyn]
+        · simp [hxn]
       | some a =>
         cases hb : numOf y with
-        | none => simp
+        | none =>
+          have : x ≠ .nan := by intro e; rw [e] at ha; simp [numOf] at ha
+          simp [this]
         | some b => simpa using htol a b ha hb
     · exact zip_all_false _ old new i x y hx hy hdiff
+
+/-- A sequence never matches a stored scalar and a scalar (a string included) never matches a stored array:
+    a change of "length" between one value and a list of values is always reported, and nothing raises. -/
+theorem sequence_scalar_mismatch (obj : Obj) (q : Dict) (k : String) :
+    (∀ (old : Scalar) (new : List Scalar), (k, Val.list new) ∈ q → obj.lookup k = some (.scalar old) → matchAll obj q = false) ∧
+    (∀ (old : List Scalar) (new : Scalar), (k, Val.scalar new) ∈ q → obj.lookup k = some (.array old) → matchAll obj q = false) := by
+  constructor
+  · intro old new hm hl
+    exact entry_false obj q k _ true hm (by simp [matchEntry, hl])
+  · intro old new hm hl
+    exact entry_false obj q k _ true hm (by simp [matchEntry, hl])
+
+/-- NaN matches itself, as a scalar and inside an array. -/
+example : matchAll (store [("a", .scalar .nan), ("b", .list [.num 3 2, .nan])])
+    [("a", .scalar .nan), ("b", .list [.num 3 2, .nan])] = true := by decide
 
 /-- FULL sensitivity is false for float arrays: a change inside the tolerance is reported as a match. -/
 theorem array_sensitive_counterexample :
